@@ -18,7 +18,7 @@ HOOKS = {
 
 ENGINES = [
     {'name': 'vf', 'path': 'vf/harness.py',
-     'serves_properties': ['C01', 'C02', 'C03', 'C04', 'C05', 'C06', 'C10', 'C07', 'C08', 'C09', 'C12', 'C13', 'C14', 'C15', 'C16', 'C17', 'C18', 'C19', 'C20'],
+     'serves_properties': ['C01', 'C02', 'C03', 'C04', 'C05', 'C06', 'C10', 'C07', 'C08', 'C09', 'C11', 'C12', 'C13', 'C14', 'C15', 'C16', 'C17', 'C18', 'C19', 'C20'],
      'kind_free_text': ('runtime monitoring driver: 16 worker processes import the real '
                         'openhtf from /repo, run enumerated + seeded cases, monitors '
                         'decide each property from observed events; witnesses are '
@@ -283,5 +283,20 @@ CHECKS = {
                  'ThreadTerminationError in a bystander thread'),
         'note': ('P is read from the module; leaving the `with self._running_lock` block counts as "body still running"; thread-id '
                  'reuse in async_raise is out of reach'),
+    },
+    'C11': {
+        'level': 'exploration',
+        'technique': 'runtime monitoring: deep structural fingerprints of declared objects before/after derive, modify and execute operations; record comparison across repeated runs with in-phase pristine-state probes; concurrent test pairs with distinct markers under yield injection',
+        'text': ('all 27 x 14 pairs of (derive operation, modification of the derived object\'s public surface incl. running '
+                 'it) on a richly declared source phase: the source fingerprint must not change and the derived object must '
+                 'not be the source; directed and seeded E1 programs x settings executed 2-3 times on one Test: fingerprint of '
+                 'tree/options/test_start unchanged by execute(), every later record equal to the first modulo time stamps, '
+                 'and a probe phase sees an empty state dict, no diagnosis result, no earlier measurement, log line or '
+                 'metadata entry at the start of every run; pairs of tests with distinct plug classes and marker values '
+                 'executed concurrently (barriers + seeded yield injection): neither record (record-logger lines, '
+                 'measurements, attachments, diagnoses, DUT id) nor any in-phase view (state dict, get_measurement, '
+                 'get_attachment, plug) contains the other test\'s marker'),
+        'note': ('caches are excluded from fingerprints; framework-logger lines are shared by design (C19); known finding F10b '
+                 '(shared list entries) is keyed by mechanism'),
     },
 }
